@@ -342,7 +342,7 @@ class LocationStep(Node):
             size = len(candidates)
             next_candidates = []
             for position, candidate in enumerate(candidates, start=1):
-                if predicate.evaluate(
+                result = predicate.evaluate(
                     node=candidate,
                     context=EvaluationContext(
                         node=candidate,
@@ -350,7 +350,11 @@ class LocationStep(Node):
                         size=size,
                         namespaces=namespaces,
                     ),
-                ):
+                )
+                if isinstance(result, (int, float)) and not isinstance(result, bool):
+                    # a number selects the candidate at that position
+                    result = result == position
+                if result:
                     next_candidates.append(candidate)
             candidates = next_candidates
 
